@@ -1016,3 +1016,6 @@ CASES += [
  dict(id='mut-table-without-header', kind='fire', file=M, old='        print_header(&headers, &widths);\n', new='', expect={'C10': 'header of the table'}, control=False),
  dict(id='mut-parse-tree-nodes-from-one', kind='fire', file=PIO, old='(0..self.nodes.len()).collect()', new='(1..self.nodes.len()).collect()', expect={'C14': 'node list'}, control=False),
 ]
+CASES += [
+ dict(id='mut-tokenize-reference-dropped', kind='fire', file=P, old='                result.push(SymbolicBDDToken::Reference(reference.as_str().to_string()));\n', new='                let _ = reference;\n', expect={'C08': 'reference token'}, control=False),
+]
